@@ -36,7 +36,8 @@ JudgeCall(k) ==
               /\ UniqueIds(c.host) /\ UniqueIds(c.ins) /\ Ids(c.host) \cap Ids(c.ins) = {}
       bad == { j \in 1..Len(c.results) : ~InsertStep(G, c.host, c.ins, c.results[j]) }
       dupids == Cardinality({ j \in 1..Len(c.results) : ~UniqueIds(c.results[j]) })
-  IN /\ PrintT(<<"CALL", c.id, Len(c.results), Cardinality(bad), inok, dupids>>)
+      holes == Cardinality({ j \in 1..Len(c.results) : j \notin bad /\ ~HolesKept(c.ins, c.results[j]) })
+  IN /\ PrintT(<<"CALL", c.id, Len(c.results), Cardinality(bad), inok, dupids, holes>>)
      /\ \A j \in bad : PrintT(<<"MISMATCH", c.id, j, InsertWhy(G, c.host, c.ins, c.results[j])>>)
 Judged == i >= 1 => JudgeCall(i)
 =============================================================================
